@@ -6,6 +6,7 @@
 //!     ["r", addr]          LcdController::read           -> "r": null | int
 //!     ["b"]                remember display_buffer() as the base; -> "b": 32 strings of 240 '0'/'1'
 //!     ["d"]                diff display_buffer() against the base -> "d": [row, col, value, ...]
+//!     ["v"]                export_snapshot() VRAM payload -> "x": hex string
 //!     ["cb"]               begin_display_write_capture
 //!     ["ct"]               take_display_write_capture    -> "c": [[page, col, value], ...]
 //!   With "snap": true every "w"/"r" result additionally carries the export_snapshot() view:
@@ -110,6 +111,14 @@ fn run_history(h: &Value, out: &mut Vec<Value>) {
                     }
                     None => out.push(json!({"error": "no base buffer"})),
                 }
+            }
+            "v" => {
+                let (_meta, payload) = lcd.export_snapshot();
+                let mut hex = String::with_capacity(payload.len() * 2);
+                for b in payload.iter() {
+                    hex.push_str(&format!("{:02x}", b));
+                }
+                out.push(json!({"x": hex}));
             }
             "cb" => {
                 lcd.begin_display_write_capture();
